@@ -2,8 +2,6 @@
 package c01
 
 import (
-	"sync"
-	"time"
 	"bytes"
 	"context"
 	"crypto/ecdsa"
@@ -18,7 +16,9 @@ import (
 	"os"
 	"path/filepath"
 	"strings"
+	"sync"
 	"testing"
+	"time"
 
 	"github.com/theparanoids/ysshra/gensign"
 	"github.com/theparanoids/ysshra/gensign/regular"
@@ -28,9 +28,11 @@ import (
 )
 
 type RunSpec struct {
-	LogName  string
-	Policy   string
-	HardKey  bool
+	LogName string
+	Policy  string
+	HardKey bool
+	// ExtsKind: free-form extended attributes carried next to the typed ones (see extsOf)
+	ExtsKind string `json:",omitempty"`
 	ReqUser  string
 	ReqHost  string
 	Via      string
@@ -83,6 +85,24 @@ func (r *shortReader) Read(b []byte) (int, error) {
 }
 
 var entropyMu sync.Mutex
+
+// extsOf: free-form extended attributes of the request that repeat, in other spellings and types, what the typed
+// attributes say - or contradict them. The typed attributes are the request.
+func extsOf(kind string) map[string]any {
+	switch kind {
+	case "hardkey-false":
+		return map[string]any{"hardkey": false}
+	case "HardKey-false-text":
+		return map[string]any{"HardKey": "false"}
+	case "HARDKEY-0":
+		return map[string]any{"HARDKEY": "0", "note": "x"}
+	case "hardKey-false":
+		return map[string]any{"hardKey": false, "username": "root"}
+	case "other":
+		return map[string]any{"reason": "ticket-1", "n": 3}
+	}
+	return nil
+}
 
 // buildDecoy builds (and abandons) a regular handler whose configuration differs in every option: another key
 // directory - in which every login name is registered with a key the forwarded agent holds -, another validity,
@@ -215,14 +235,15 @@ func gen(t *rapid.T) Case {
 			edit = map[string]string{f: rapid.SampledFrom(append([]string{"", "", "unparsable"}, userKeys...)).Draw(t, l+"EditTo")}
 		}
 		r := RunSpec{
-			LogName: rapid.SampledFrom(names).Draw(t, l+"Log"),
-			Policy:  rapid.SampledFrom([]string{"NONS", "NONS", "NONS", "NONS", "NSOK", "NSOK", "nsok", "Nsok", "nsOK", "nons", "NSOK ", "", "NS", "NSOK,NONS"}).Draw(t, l+"Pol"),
-			HardKey: rapid.IntRange(0, 5).Draw(t, l+"HK") == 0,
-			ReqUser: rapid.SampledFrom([]string{"alice", "bob", "root", "carol", "mallory", "svc-deployment-automation-account-for-region-eu-central-1", strings.Repeat("u", 64), strings.Repeat("é", 200)}).Draw(t, l+"RU"),
-			ReqHost: rapid.SampledFrom([]string{"laptop", "host.example.com", "ip-10-20-30-40.eu-central-1.compute.internal.example-cloud.com", strings.Repeat("h", 64), strings.Repeat("x", 3000)}).Draw(t, l+"RH"),
-			Via:     rapid.SampledFrom([]string{"direct", "env"}).Draw(t, l+"Via"),
-			DirEdit: edit,
-			Agent:   rapid.SampledFrom([]string{"honest", "honest", "honest", "nokey", "otherkey", "otherdata", "replay", "replay", "garbage", "empty", "fail", "close"}).Draw(t, l+"Agent"),
+			LogName:  rapid.SampledFrom(names).Draw(t, l+"Log"),
+			Policy:   rapid.SampledFrom([]string{"NONS", "NONS", "NONS", "NONS", "NSOK", "NSOK", "nsok", "Nsok", "nsOK", "nons", "NSOK ", "", "NS", "NSOK,NONS"}).Draw(t, l+"Pol"),
+			HardKey:  rapid.IntRange(0, 5).Draw(t, l+"HK") == 0,
+			ExtsKind: rapid.SampledFrom([]string{"", "", "", "hardkey-false", "HardKey-false-text", "HARDKEY-0", "hardKey-false", "other"}).Draw(t, l+"Exts"),
+			ReqUser:  rapid.SampledFrom([]string{"alice", "bob", "root", "carol", "mallory", "svc-deployment-automation-account-for-region-eu-central-1", strings.Repeat("u", 64), strings.Repeat("é", 200)}).Draw(t, l+"RU"),
+			ReqHost:  rapid.SampledFrom([]string{"laptop", "host.example.com", "ip-10-20-30-40.eu-central-1.compute.internal.example-cloud.com", strings.Repeat("h", 64), strings.Repeat("x", 3000)}).Draw(t, l+"RH"),
+			Via:      rapid.SampledFrom([]string{"direct", "env"}).Draw(t, l+"Via"),
+			DirEdit:  edit,
+			Agent:    rapid.SampledFrom([]string{"honest", "honest", "honest", "nokey", "otherkey", "otherdata", "replay", "replay", "garbage", "empty", "fail", "close"}).Draw(t, l+"Agent"),
 		}
 		if r.Via == "direct" && rapid.IntRange(0, 9).Draw(t, l+"NilAttrs") == 0 {
 			r.NilAttrs = true
@@ -245,6 +266,30 @@ func gen(t *rapid.T) Case {
 			r.SameNames = rapid.SampledFrom([]string{"paranoids.regular", "verif.shared", ""}).Draw(t, l+"SameName")
 		}
 		c.Runs = append(c.Runs, r)
+	}
+	if rapid.IntRange(0, 5).Draw(t, "straightPath") == 2 {
+		// a sixth of the histories keep the path to the real handler's challenge straight - alice has a registered key the
+		// honest agent holds, the namespace matches, the real handler stands alone - so that the remaining drawn dimensions
+		// (hardware-key flag, extended attributes, declared user / host, parameter route, reuse, second handler, entropy)
+		// meet an authentication that would otherwise succeed
+		isUserKey := false
+		for _, k := range userKeys {
+			isUserKey = isUserKey || c.Dir["alice.pub"] == k
+		}
+		if !isUserKey {
+			c.Dir["alice.pub"] = "p256b"
+		}
+		has := false
+		for _, h := range c.Held {
+			has = has || h == c.Dir["alice.pub"]
+		}
+		if !has {
+			c.Held = append(c.Held, c.Dir["alice.pub"])
+		}
+		for i := range c.Runs {
+			c.Runs[i].LogName, c.Runs[i].Policy, c.Runs[i].Agent, c.Runs[i].Handlers, c.Runs[i].NilAttrs = "alice", "NONS", "honest", []string{"real"}, false
+			c.Runs[i].HardKey = rapid.Bool().Draw(t, fmt.Sprintf("straightHK%d", i))
+		}
 	}
 	return c
 }
@@ -416,7 +461,7 @@ func exec(c Case) (vh.Outcome, error) {
 		signs = nil
 		ca := &vh.FakeCA{Default: vh.CABehaviour{NCerts: 1}}
 		hlog := &vh.HandlerLog{}
-		param, perr := vh.BuildParam(vh.ParamSpec{LogName: r.LogName, Policy: r.Policy, HardKey: r.HardKey, ReqUser: r.ReqUser, ReqHost: r.ReqHost, ClientIP: "172.17.0.1", TransID: fmt.Sprintf("%010x", ri), Via: r.Via, NilAttrs: r.NilAttrs})
+		param, perr := vh.BuildParam(vh.ParamSpec{LogName: r.LogName, Policy: r.Policy, HardKey: r.HardKey, ReqUser: r.ReqUser, ReqHost: r.ReqHost, ClientIP: "172.17.0.1", TransID: fmt.Sprintf("%010x", ri), Via: r.Via, NilAttrs: r.NilAttrs, Exts: extsOf(r.ExtsKind)})
 		if perr != nil {
 			if r.Policy != "NONS" && r.Policy != "NSOK" {
 				// a namespace policy that is not one of the two defined values is refused when the parameters
@@ -735,7 +780,7 @@ func orDefault(name string) string {
 	return name
 }
 
-const rule = "histories of 1..4 runs of gensign.Run sharing one registered-key directory (a third of the later runs first replace, break or delete a '<name>.pub' / '<name>' file) and one scripted forwarded agent; in half of the histories every run uses the same regular.Handler object and forwarded connection, otherwise each run builds its own. In a quarter of the histories a second regular handler is built in the same process from another configuration (another key directory in which every login name is registered with a key the agent holds, another validity, other slots) right after each handler the runs use. In an eighth of the histories the process's entropy source (crypto/rand.Reader) hands out only 1..7 bytes per Read call, as an io.Reader may. Per run: login name (incl. names of other users, 'alice.pub', and 'Alice' / 'BOB' / 'caRol', which have no key file of their own), namespace policy NONS / NSOK and spellings that are neither (other letter case, a trailing blank, empty, a prefix, both joined), hardware-key flag, client-declared user / host different from the login name (short, or 55..3000 bytes long), parameters built directly or through NewReqParam, agent behaviour {honest, lacks the key, signs with another key, signs other data, replays a signature captured earlier in the history, garbage, empty signature, failure, closes the connection}, handler list of 1..4 entries (in a quarter of the runs all harness handlers report one and the same name - the real handler's or another -, as instances of one handler type do) with at most one real regular handler among accepting harness handlers and harness handlers rejecting with every kind of error (authentication, disabled, invalid parameters, unknown, panic-typed, untyped, typed errors without a wrapped cause) or panicking inside Authenticate, and accepting harness handlers whose Generate then fails (generation, configuration or untyped error); a tenth of the directly built parameter sets carry no client attributes at all. Directory: '<n>.pub' and bare '<n>' files holding any user's key (RSA, ECDSA, Ed25519, and the types nobody can answer for through the forwarded agent: security-key types (the honest agent does answer for the sk-ed25519 one, as a token would), a certificate line, DSA), both with different keys, unparsable, absent; a tenth of the key files hold 2..4 lines (keys of any of these kinds, unparsable lines), where a proof under any line's key counts as a proof under a registered key. Oracle: the harness sees every sign request and reply and decides itself (K.Verify over this run's challenge under the registered key) whether the real handler may authenticate; CA call or add-identity => the selected handler is the first in list order that authenticates, earlier ones asked once, later ones never; none => AllAuthFailed, no Generate, no CA call, no add; a handler that crashes while authenticating never counts as authenticated (error returned, no CA call, no add, no later handler used); the first handler that authenticates cannot generate => error, no CA call, no add, no later handler used; a handler authenticates (and generates) => the run succeeds with exactly one request from that handler; challenges are 64 bytes, filled and not mostly predictable text (fewer than 17 zero bytes, at least 36 different byte values: both fail for random bytes with a chance below 1e-14), only under the registered key, pairwise distinct over the history. Non-trivial: an adversarial agent while the key file exists, or a reject before an accept in a list of >= 2."
+const rule = "histories of 1..4 runs of gensign.Run sharing one registered-key directory (a third of the later runs first replace, break or delete a '<name>.pub' / '<name>' file) and one scripted forwarded agent; in half of the histories every run uses the same regular.Handler object and forwarded connection, otherwise each run builds its own. A sixth of the histories keep the path to the real handler's challenge straight (alice's registered key held by an honest agent, matching namespace, the real handler alone) so that the other drawn dimensions meet an authentication that would otherwise succeed. In a quarter of the histories a second regular handler is built in the same process from another configuration (another key directory in which every login name is registered with a key the agent holds, another validity, other slots) right after each handler the runs use. In an eighth of the histories the process's entropy source (crypto/rand.Reader) hands out only 1..7 bytes per Read call, as an io.Reader may. Per run: login name (incl. names of other users, 'alice.pub', and 'Alice' / 'BOB' / 'caRol', which have no key file of their own), namespace policy NONS / NSOK and spellings that are neither (other letter case, a trailing blank, empty, a prefix, both joined), hardware-key flag (in half of the runs next to free-form extended attributes that spell 'hardkey' = false in various ways: the typed flag is the request), client-declared user / host different from the login name (short, or 55..3000 bytes long), parameters built directly or through NewReqParam, agent behaviour {honest, lacks the key, signs with another key, signs other data, replays a signature captured earlier in the history, garbage, empty signature, failure, closes the connection}, handler list of 1..4 entries (in a quarter of the runs all harness handlers report one and the same name - the real handler's or another -, as instances of one handler type do) with at most one real regular handler among accepting harness handlers and harness handlers rejecting with every kind of error (authentication, disabled, invalid parameters, unknown, panic-typed, untyped, typed errors without a wrapped cause) or panicking inside Authenticate, and accepting harness handlers whose Generate then fails (generation, configuration or untyped error); a tenth of the directly built parameter sets carry no client attributes at all. Directory: '<n>.pub' and bare '<n>' files holding any user's key (RSA, ECDSA, Ed25519, and the types nobody can answer for through the forwarded agent: security-key types (the honest agent does answer for the sk-ed25519 one, as a token would), a certificate line, DSA), both with different keys, unparsable, absent; a tenth of the key files hold 2..4 lines (keys of any of these kinds, unparsable lines), where a proof under any line's key counts as a proof under a registered key. Oracle: the harness sees every sign request and reply and decides itself (K.Verify over this run's challenge under the registered key) whether the real handler may authenticate; CA call or add-identity => the selected handler is the first in list order that authenticates, earlier ones asked once, later ones never; none => AllAuthFailed, no Generate, no CA call, no add; a handler that crashes while authenticating never counts as authenticated (error returned, no CA call, no add, no later handler used); the first handler that authenticates cannot generate => error, no CA call, no add, no later handler used; a handler authenticates (and generates) => the run succeeds with exactly one request from that handler; challenges are 64 bytes, filled and not mostly predictable text (fewer than 17 zero bytes, at least 36 different byte values: both fail for random bytes with a chance below 1e-14), only under the registered key, pairwise distinct over the history. Non-trivial: an adversarial agent while the key file exists, or a reject before an accept in a list of >= 2."
 
 // TestC01Slow: a forwarded agent that takes seconds to answer the challenge (and then proves
 // possession, refuses, or answers with another key), under a run deadline that is longer than that.
